@@ -813,9 +813,14 @@ def r7(ctx):
         if len(sent) != 1 or len(rest) != 1:
             return None
         u = rest[0]
-        if not (isinstance(u, ast.Call) and call_name(u) == "np.unique" and len(u.args) == 1 and not u.keywords):
+        if isinstance(u, ast.Call) and call_name(u) == "np.setdiff1d" and len(u.args) == 2 and not u.keywords \
+                and T(u.args[1]) in ("[CONTROL_SENTINEL_VALUE]", "[-1]", "(CONTROL_SENTINEL_VALUE,)", "np.array([CONTROL_SENTINEL_VALUE])"):
+            # unique(X) minus the sentinel, the sentinel then added back: the same set
+            a = u.args[0]
+        elif isinstance(u, ast.Call) and call_name(u) == "np.unique" and len(u.args) == 1 and not u.keywords:
+            a = u.args[0]
+        else:
             return None
-        a = u.args[0]
         while isinstance(a, ast.Call) and isinstance(a.func, ast.Attribute) and a.func.attr in ("flatten", "ravel") or \
                 (isinstance(a, ast.Call) and isinstance(a.func, ast.Attribute) and a.func.attr == "reshape" and T(a.args[0]) == "-1"):
             a = a.func.value
